@@ -11,6 +11,13 @@ void GMGPolar::solve()
     /* Initialize starting solution */
     /* ---------------------------- */
 
+    /* The residual history, the error list and the smoother switch of the combined mode describe this solve only. */
+    residual_norms_.clear();
+    exact_errors_.clear();
+    if (extrapolation_ == ExtrapolationType::COMBINED) {
+        full_grid_smoothing_ = true;
+    }
+
     auto start_initial_approximation = std::chrono::high_resolution_clock::now();
     initializeSolution();
     auto end_initial_approximation = std::chrono::high_resolution_clock::now();
